@@ -638,6 +638,20 @@ def widened(ctx, st, pd):
         k2 = [r[:ncol] for r in rows2]
         J.add('row samples', 'pc(a, b)[DataFrames, %d columns]' % ncol, st.pc, (df, df2), 'pc2', pc2=tok2(keyrows, k2),
               desc='a = %s, b = DataFrame with rows %s' % (desc, _show_sample(k2)), replay=dict(rep, rows2=[list(r) for r in k2]))
+        if ncol == 2:
+            # the deprecated (alpha, beta) pair as BOTH samples - by position, the second by keyword, both by keyword (seeded change C06-r6m2:
+            # a conversion applied to positional arguments only)
+            p1 = ([r[0] for r in rows], [r[1] for r in rows])
+            p2_ = ([r[0] for r in rows2], [r[1] for r in rows2])
+            style = ('positional', 'array2 by keyword', 'both by keyword')[trial % 3]
+            a_, k_ = {'positional': ((p1, p2_), None), 'array2 by keyword': ((p1,), dict(array2=p2_)),
+                      'both by keyword': ((), dict(array=p1, array2=p2_))}[style]
+            J.add('row samples', 'pc(a, b)[(alpha, beta) pairs, %s]' % style, st.pc, a_, 'pc2', kwargs=k_, pc2=tok2(keyrows, k2),
+                  desc='a = pair of lists with rows %s, b = pair of lists with rows %s (%s)' % (_show_sample(keyrows), _show_sample(k2), style),
+                  replay=dict(rep, rows2=[list(r) for r in k2], form='pairs', style=style))
+            if len(rows) >= 2 and trial % 2:
+                J.add('row samples', 'pc[(alpha, beta) pair by keyword]', st.pc, (), 'pc', kwargs=dict(array=p1), counts=v,
+                      desc='array=(alpha, beta) pair of lists, rows %s' % _show_sample(keyrows), replay=dict(rep, form='pair by keyword'))
         # stdpc_joint: the root of varpc_n of the counts of the joint values of the columns `on` (no cell contains the gap token)
         on = rng.sample(cols, rng.randint(1, ncol))
         gap = rng.choice(['_', '_', '|', '--', ' '])
